@@ -333,7 +333,18 @@ def run_book(ctx, bi):
                 pick = min if fn == 'MIN' else max
                 if num(w) and both and not (num(o[both]) and o[both].value == w.value):
                     report(r, ID, None, case, {'whole': w.value, 'two_areas': o[both].brief()}, f'{fn}(X) = {fn}(X1,X2)', monitor='split-law')
-                if num(w) and num(a_) and num(b_) and pick(a_.value, b_.value) != w.value:
+                # MIN / MAX of a part without any number is 0 (no number to pick): the law holds for parts that do hold numbers
+                def holds_numbers(area_text):
+                    from ..xlref import evalr as _ev
+                    from ..xlref.parser import parse as _parse
+                    try:
+                        e_ = _ev.Evaluator(_ev.Env(spec, {(['T', 'U', 'W'][s_], *wbspec.rc(a__)): v__ for (s_, a__, v__) in val}))
+                        return len(e_.numeric_items([_parse('=' + area_text)], 'T', None)) > 0
+                    except Exception:  # noqa: BLE001 - no opinion: the law is not asserted
+                        return None
+                if num(w) and num(a_) and num(b_) and not (holds_numbers(sp[0]) and holds_numbers(sp[1])):
+                    r.count('split_law_part_without_numbers')
+                elif num(w) and num(a_) and num(b_) and pick(a_.value, b_.value) != w.value:
                     report(r, ID, None, case, {'whole': w.value, 'parts': [a_.value, b_.value]}, f'{fn}(X) = {fn} of the parts', monitor='split-law')
     if bi % 100 == 0:
         r.sample({'formulas': [f for a, f, m in forms[:10]], 'laws': [[l[0], l[5], list(l[6])] for l in laws[:3]]})
